@@ -361,9 +361,15 @@ class Interp(object):
             for s2 in self._conj(g[1], 0, ren, s, depth, cj or len(g[1]) >= 2):
                 yield s2
         elif k == "or":
-            for sub in g[1]:
-                for s2 in self.solve(sub, ren, s, depth + 1, cj):
-                    yield s2
+            if self.track_dups:
+                # ProbLog compiles a disjunction into an auxiliary predicate over its variables: equal answers of the
+                # branches are merged like the answers of a call
+                keyterms = tuple(to_internal(["v", v], ren) for v in goal_vars(g, []))
+                it = self._grouped(self._branches(g[1], ren, s, depth, cj), s, keyterms, cj)
+            else:
+                it = self._branches(g[1], ren, s, depth, cj)
+            for s2 in it:
+                yield s2
         elif k == "not":
             self._tick()
             inner = g[1]
@@ -410,7 +416,7 @@ class Interp(object):
             proofs = []
             keys = []
             gvars = None
-            if k == "all":
+            if k == "all" or self.track_proofs:
                 gvars = tuple(to_internal(["v", v], ren) for v in goal_vars(g[2], term_vars(g[1], [])))
             self.scopes.append({})
             try:
@@ -423,6 +429,12 @@ class Interp(object):
             finally:
                 uses = self.scopes.pop()
             if self.track_proofs:
+                # the findall goal itself is evaluated as a clause over (template, goal variables)
+                groups = {}
+                for key, pr in zip(keys, proofs):
+                    groups.setdefault(key, []).append(not any(len(x) > 1 for x in pr))
+                if any(len(v) > 1 and any(v) for v in groups.values()):
+                    uses["#leafless-dup"] = True
                 self.findall_log.append((k, proofs, uses))
                 s = self._leaf(s, ("findall",))
             if k == "all":
@@ -464,6 +476,31 @@ class Interp(object):
         else:
             raise ValueError(g)
 
+    def _branches(self, subs, ren, s, depth, cj):
+        for sub in subs:
+            for s2 in self.solve(sub, ren, s, depth + 1, cj):
+                yield s2
+
+    def _grouped(self, it, entry, keyterms, cj):
+        """Pass the solutions of a call / disjunction through and record, in the current findall scope, whether equal
+        answers occur: '#dup-in-conj' (inside a conjunction) and '#leafless-dup' (one of the proofs of the repeated
+        answer has no leaf at all: its node is TRUE and absorbs the other proofs)."""
+        seen = {}
+        stop = entry.get("#p")
+        for s3 in it:
+            c = canonical(tuple(resolve(a, s3) for a in keyterms))
+            lf = self.track_proofs and not any(len(x) > 1 for x in self.proof_of(s3, stop))
+            if c in seen:
+                self.dup_call = True
+                if cj:
+                    self.scopes[-1]["#dup-in-conj"] = True
+                if lf or seen[c]:
+                    self.scopes[-1]["#leafless-dup"] = True
+                seen[c] = seen[c] or lf
+            else:
+                seen[c] = lf
+            yield s3
+
     def _conj(self, goals, i, ren, s, depth, cj=False):
         if i == len(goals):
             yield s
@@ -499,10 +536,14 @@ class Interp(object):
         return go(t)
 
     def call(self, pred, args, s, depth, cj=False):
+        if self.track_dups:
+            return self._grouped(self._resolve(pred, args, s, depth, cj), s, args, cj)
+        return self._resolve(pred, args, s, depth, cj)
+
+    def _resolve(self, pred, args, s, depth, cj):
         cls = self.clauses.get((pred, len(args)))
         if cls is None:
             return
-        seen = set() if self.track_dups else None
         for hargs, body, cid in cls:
             self._tick()
             ren = self._ren()
@@ -516,20 +557,10 @@ class Interp(object):
             if body is None:
                 if self.track_proofs:
                     s2 = self._leaf(s2, ("fact", cid))
-                it = (s2,)
+                yield s2
             else:
-                it = self.solve(body, ren, s2, depth + 1, cj)
-            for s3 in it:
-                if seen is not None:
-                    c = canonical(tuple(resolve(a, s3) for a in args))
-                    if c in seen:
-                        self.dup_call = True
-                        if cj:
-                            # ProbLog merges the equal answers of this call into one node before the enclosing
-                            # conjunction is built
-                            self.scopes[-1]["#dup-in-conj"] = True
-                    seen.add(c)
-                yield s3
+                for s3 in self.solve(body, ren, s2, depth + 1, cj):
+                    yield s3
 
     def query(self, pred, args_json):
         """All answers of `pred(args)` in SLD order with duplicates: list of tuples of internal (resolved) terms."""
@@ -568,6 +599,33 @@ def order_robust(proofs, uses):
             if len(last) == 1 or uses.get(last, 0) != 1:
                 return False
     return True
+
+
+def multiplicity_robust(uses):
+    """No call, disjunction or findall goal returned an answer twice with a proof that has no leaf at all (only
+    negations / nested findalls).  Such a proof is the node TRUE, a disjunction with a TRUE child is TRUE, and ProbLog's
+    findall then shows all proofs of that answer as ONE element."""
+    return not uses.get("#leafless-dup")
+
+
+def sort_lists(t):
+    """The term with the items of every proper list sorted (to compare terms modulo the order inside lists)."""
+    if t[0] != "c":
+        return t
+    items = list_items(t)
+    if items is not None:
+        return make_list(sorted((sort_lists(x) for x in items), key=repr))
+    return ("c", t[1], tuple(sort_lists(x) for x in t[2]))
+
+
+def dedup_lists(t):
+    """The term with the items of every proper list sorted and made unique (terms modulo order and multiplicity)."""
+    if t[0] != "c":
+        return t
+    items = list_items(t)
+    if items is not None:
+        return make_list(sorted(set(dedup_lists(x) for x in items), key=repr))
+    return ("c", t[1], tuple(dedup_lists(x) for x in t[2]))
 
 
 def term_vars(t, acc):
